@@ -1,5 +1,11 @@
 package main
 
+import (
+	"strings"
+
+	"golang.org/x/tools/go/ssa"
+)
+
 // Registration of the rule families that decide (clauses of) each property.
 // A property is registered only with rules that are silent on the current
 // tree (after the recorded fix: commits and known findings) and that fire on
@@ -27,7 +33,7 @@ var (
 
 func init() {
 	register("DBG", "debug: every rule over the whole module",
-		ruleRunOnce(nil, 0), ruleMemberLoops(nil, 0, 0))
+		ruleShapeFaults(shapeConfig{label: "all", keep: notGenerated}))
 
 	register("C19",
 		"Sound may-write analysis of the six read-only quadtree queries: every store reachable from them targets a per-call allocation or the caller's result buffer; no package-level variable is written. Decided for all schedules and all trees, modulo the stated assumptions.",
@@ -38,6 +44,8 @@ func init() {
 		"Structural necessary conditions of 'Clone is deep': points-to freshness of every Clone result at every nesting level and no write to the argument; coordinates are only moved. Equal/Bound numeric laws are NOT decided.",
 		ruleFreshResult("clone family", cloneFamily, 8),
 		ruleNoWrite("clone family", cloneFamily, 8, 5),
+		ruleShapeFaults(shapeConfig{label: "orb core", keep: inPkgs("orb."), floor: 42}),
+		ruleMemberLoops(inPkgs("orb."), 17, 0),
 	)
 
 	register("C01",
@@ -61,6 +69,7 @@ func init() {
 	register("C10",
 		"Structural necessary conditions of 'planar measures equal their exact values': every segment loop visits every consecutive pair and every member loop every member (or reads the skipped prefix elsewhere). Numeric identities are NOT decided.",
 		ruleMemberLoops(inPkgs("planar.", "internal/length."), 14, 5),
+		ruleShapeFaults(shapeConfig{label: "planar measures", keep: and(inPkgs("planar.", "internal/length."), func(k string) bool { return !strings.Contains(k, "Contains") }), floor: 6}),
 		ruleRunOnce(inPkgs("planar.", "internal/length."), 20),
 	)
 
@@ -68,18 +77,39 @@ func init() {
 		"Structural necessary conditions of 'tile covers contain every tile touched': every member of a multi-geometry/collection contributes (no loop cut after its first member, no skipped prefix) and the line walk visits every segment. The DDA, scan fill and merge arithmetic are NOT decided.",
 		ruleRunOnce(inPkgs("maptile/tilecover."), 15),
 		ruleMemberLoops(inPkgs("maptile/tilecover."), 5, 1),
+		ruleShapeFaults(shapeConfig{label: "tilecover", keep: inPkgs("maptile/tilecover."), floor: 8}),
 	)
 
 	register("C18",
 		"Structural necessary conditions of 'spherical measures sum over parts': member loops of polygon/multi-polygon/collection area and the shared length loops cover every member/segment. Identities on the sphere are NOT decided (thin claim).",
 		ruleMemberLoops(inPkgs("geo.", "internal/length."), 6, 2),
+		ruleShapeFaults(shapeConfig{label: "geo measures", keep: inPkgs("geo.", "internal/length."), floor: 5}),
 		ruleRunOnce(inPkgs("geo.", "internal/length."), 8),
+	)
+
+	register("C12",
+		"Structural necessary conditions of the simplifier property: no certain fault for any kind x degenerate shape through every exported simplify entry (abstract interpretation); member loops cover every member. Error bound, idempotence, counts are NOT decided.",
+		ruleShapeFaults(shapeConfig{label: "simplify", keep: inPkgs("simplify."), floor: 21}),
+		ruleMemberLoops(inPkgs("simplify."), 5, 0),
+	)
+
+	register("C16",
+		"Structural necessary conditions of smart clipping: no certain fault for any 2-d kind x degenerate shape x both orientations (abstract interpretation); member loops. Region equality is NOT decided.",
+		ruleShapeFaults(shapeConfig{label: "smartclip", keep: inPkgs("clip/smartclip."), floor: 4}),
+		ruleMemberLoops(inPkgs("clip/smartclip."), 10, 0),
+	)
+
+	register("C17",
+		"Structural necessary conditions of resampling: no certain fault (negative make, index) for nil/empty/1..4-vertex lines x N in {-1,0,1,2,3,free} x free interval (abstract interpretation); the two distance loops visit every segment. Spacing and counts are NOT decided.",
+		ruleShapeFaults(shapeConfig{label: "resample", keep: inPkgs("resample."), floor: 2, override: resampleParams}),
+		ruleMemberLoops(inPkgs("resample."), 1, 2),
 	)
 
 	register("C20",
 		"Structural necessary conditions of 'generic entry points are total': typestate over dynamic kinds at every type switch / assertion on orb.Geometry, sealedness of the interface, no collection loop cut after its first member. Numeric agreement with typed functions is NOT decided.",
 		ruleSealed, ruleKinds,
 		ruleRunOnce(notGenerated, 200),
+		ruleShapeFaults(shapeConfig{label: "generic entries", keep: notGenerated, onlyGeneric: true, floor: 41}),
 	)
 }
 
@@ -110,4 +140,12 @@ func cloneFamily(c *Ctx) []effectEntry {
 		}
 	}
 	return out
+}
+
+// resampleParams: the requested point count is enumerated around its edge cases.
+func resampleParams(p *Program, fn *ssa.Function, par *ssa.Parameter) []argChoice {
+	if par.Name() == "totalPoints" {
+		return intChoices("totalPoints", -1, 0, 1, 2, 3)
+	}
+	return nil
 }
